@@ -12,6 +12,7 @@
 package main
 
 import (
+	"bytes"
 	"encoding/json"
 	"fmt"
 	"os"
@@ -141,11 +142,14 @@ func line(h *History, res result) string {
 	for k, v := range res.Detail {
 		obj[k] = v
 	}
-	b, err := json.Marshal(obj)
-	if err != nil {
-		b = []byte(`{"marshal-error":` + strconv.Quote(err.Error()) + `}`)
+	var buf bytes.Buffer
+	enc := json.NewEncoder(&buf)
+	enc.SetEscapeHTML(false)
+	if err := enc.Encode(obj); err != nil {
+		buf.Reset()
+		buf.WriteString(`{"marshal-error":` + strconv.Quote(err.Error()) + `}`)
 	}
-	return "FAIL " + res.Clause + " " + string(b)
+	return "FAIL " + res.Clause + " " + strings.TrimSpace(buf.String())
 }
 
 func main() {
@@ -196,8 +200,8 @@ func main() {
 		b, _ := json.Marshal(st)
 		out.Line("STATS " + string(b))
 		out.Close()
-	case "replay":
-		if len(os.Args) != 4 {
+	case "replay", "shrink":
+		if len(os.Args) != 4 && !(os.Args[1] == "shrink" && len(os.Args) == 5) {
 			usage()
 		}
 		raw, err := os.ReadFile(os.Args[3])
@@ -228,6 +232,17 @@ func main() {
 			os.Exit(2)
 		}
 		res := execute(h, newStats())
+		if os.Args[1] == "shrink" {
+			if res.OK {
+				fmt.Println(line(h, res))
+				return
+			}
+			h, res = shrink(h, res.Clause)
+			if len(os.Args) == 5 {
+				b, _ := json.Marshal(h)
+				_ = os.WriteFile(os.Args[4], append(b, '\n'), 0o644)
+			}
+		}
 		fmt.Println(line(h, res))
 	default:
 		usage()
